@@ -1963,14 +1963,14 @@ class Emitter:
             c = contracts.get(cn)
             if c is not None:
                 used_contracts.add(cn)
-                out.append(sig + '\n' + c + ';')
+                out.append(sig + '\n' + c + '\n;')
             else:
                 out.append(sig + ';  /* no body in this unit, no contract */')
         for cn, sig in sorted(self.extra_protos.items()):
             c = contracts.get(cn)
             if c is not None:
                 used_contracts.add(cn)
-            out.append(sig + ('\n' + c if c else '') + ';  /* call through the function pointer returned by the getter */')
+            out.append(sig + ('\n' + c + '\n' if c else '') + ';  /* call through the function pointer returned by the getter */')
         for cn in self.func_order:
             out.append(self.funcs[cn]['sig'] + ';')
         out.append('/* dynamic initialisers of namespace-scope / static member constants */')
